@@ -63,7 +63,7 @@ def run(tier):
     rep.ob("data", "every mapping value is a Unicode scalar value", t.get("values_scalar") is True, "", path)
     rep.ob("data", "single-code-point mappings", not any("multi" in n for n in t.get("notes", [])), "; ".join(t.get("notes", [])), path)
     rep.extra["table_rows"] = t.get("rows")
-    common.lookup_sites(prog, rep, floor=6)
+    common.lookup_sites(prog, rep)
     lookup_semantics(prog, rep)
     # ---- discipline
     key = U + "width_mapping_rule"
